@@ -406,7 +406,7 @@ func runImpl(c *rig.Ctx, cs Case, rnd func(int) int) (res runResult) {
 	// the virtual unix second of the last real write to the counter's lastSyncTime, and the request of the last tick
 	var lastSyncV int64
 	var lastReq *int64
-	hadRemote, adds := false, 0
+	hadRemote, hadCounter, adds := false, false, 0
 	unixS := func(ns int64) int64 {
 		if ns >= 0 {
 			return ns / 1e9
@@ -496,7 +496,11 @@ func runImpl(c *rig.Ctx, cs Case, rnd func(int) int) (res runResult) {
 			if cache != nil {
 				if hadRemote && !remote.VerifHasRemote(cache) {
 					// the remote wrapper was stopped: wait for the Stop(name) of every Add made under it
+					// (the counter that still existed is removed by one of them)
 					remote.VerifSettleCounter(cache)
+					if hadCounter {
+						adds--
+					}
 					if !remote.VerifDrainStops(cache, adds) {
 						if os.Getenv("C09_DEBUG") != "" {
 							fmt.Fprintf(os.Stderr, "drain failed adds=%d hadCounter=%v case=%s\n", adds, hadCounter, rig.Canon(cs))
@@ -510,6 +514,7 @@ func runImpl(c *rig.Ctx, cs Case, rnd func(int) int) (res runResult) {
 				if isNew {
 					adds++
 				}
+				hadCounter = exists
 				if exists && (isNew || ls != remote.VerifLastSyncMark) {
 					// the real code wrote the current time: resetCheck when the counter was created, send after an answer
 					lastSyncV = unixS(clock)
